@@ -654,7 +654,7 @@ impl<'a> Gen<'a> {
             2..=7 => { let (nx, xx) = self.pick(&[(false, false), (false, false), (true, false), (false, true), (true, true)]);
                        Set(self.key(&st), self.val(), self.xopt(true), nx, xx, self.chance(0.3)) }
             8 => SetNx(self.key(&st), self.val()),
-            9 => Append(self.key(&st), self.val()),
+            9 => { let v = if self.chance(0.3) { vec![] } else { self.val() }; Append(self.key(&any), v) }
             10 => GetSet(self.key(&st), self.val()),
             11 => StrLen(self.key(&st)),
             12 => { let n = self.rng.gen_range(1..=3); MGet((0..n).map(|_| self.key(&any)).collect()) }
